@@ -141,6 +141,15 @@ def translate_all(ctx):
             fails["operands"] = e
         except (KeyError, StopIteration) as e:
             fails["operands"] = TranslateError("rspirv/binary/autogen_parse_operand.rs", "name resolution", f"unknown name {e}")
+    from translate import builder as builder_tr
+    attempt("builder", lambda: builder_tr.parse_all(lambda rel: read(f"{REPO}/{rel}")))
+    if "builder" in T and "header" in T:
+        glue_gen.gen_builder(T["builder"], T["header"], f"{HARNESS}/src/glue_builder.rs")
+        if "operand_enum" in T:
+            try:
+                lean_emit.emit_builder(T, "Rspirv.Generated.Builder", f"{GEN}/Builder.lean", "from rspirv/dr/build/autogen_*.rs")
+            except TranslateError as e:
+                fails["builder"] = e
     ctx.data["T"] = T
     ctx.data["translate_fails"] = fails
     if "header" in T:
